@@ -197,7 +197,43 @@ void add(std::vector<Case> &cases) {
         }
     }
 }
+// large grids: two independent symbolic grids of sizes n1, n2 (for n1 == n2 the first differing point - anywhere - is found by the
+// solver); a slim set of entry points, refusal <=> the grids differ, right error code; no value comparison (that is the small cases' part)
+template <size_t o>
+void grids_large_case(size_t n1, size_t n2, std::pair<size_t, size_t> wa, std::pair<size_t, size_t> wb) {
+  auto g = gridvars(n1, "g"), h = gridvars(n2, "h");
+  Grid<Real> G(g), H(h);
+  Bool differ = Bool::of(n1 != n2);
+  if (n1 == n2) {
+    differ = Bool::F();
+    for (size_t k = 0; k < n1; k++) differ = differ || sym::ne(g[k], h[k]);
+  }
+  auto a = mkspline<o>(G, wa.first, wa.second, "a");
+  auto b = mkspline<o>(H, wb.first, wb.second, "b");
+  Real k0 = Real::var("k0"), k1 = Real::var("k1");
+  auto none = [] {};
+  { Spline<Real, o> r(G); entry("add", differ, true, [&] { r = a + b; }, none); }
+  { Spline<Real, o + o> r(G); entry("mul", differ, true, [&] { r = b * a; }, none); }
+  { auto t = a; entry("iadd", differ, true, [&] { t += b; }, none); }
+  { Real r(0); entry("scalar-product", differ, true, [&] { r = ScalarProduct{}(a, b); }, none); }
+  { Spline<Real, o> r(G); entry("lincomb", differ, true, [&] { r = bspline::linearCombination(std::vector<Real>{k0, k1}, std::vector<Spline<Real, o>>{a, b}); }, none); }
+  { Spline<Real, o> r(G); entry("lincomb-reversed", differ, true, [&] { r = bspline::linearCombination(std::vector<Real>{k0, k1}, std::vector<Spline<Real, o>>{b, a}); }, none); }
+  if (wa.second > wa.first + 1) { Spline<Real, o + o> r(G); entry("spline-operator-apply", differ, true, [&] { r = SplineOperator{b} * a; }, none); }
+  stats().obligations++;
+  if ((G == H) == (H == G) && (G != H) == !(G == H)) stats().discharged++; else Engine::get().fail("grid-equality-symmetric", "structure", "Grid == not symmetric or != not its negation");
+  if (stats().paths == 0 && n1 == n2) Engine::get().control("grids-can-differ-and-can-agree", differ);
+}
 void hx_cases(std::vector<Case> &cases) {
+#ifdef LARGE_GRIDS
+  for (size_t n = 8; n <= 17; n++) {
+    cases.push_back({"grids-large/o1/n" + std::to_string(n) + "/whole", [=] { grids_large_case<1>(n, n, {0, n}, {0, n}); }});
+    cases.push_back({"grids-large/o0/n" + std::to_string(n) + "/ends", [=] { grids_large_case<0>(n, n, {0, 2}, {n - 2, n}); }});
+    cases.push_back({"grids-large/o0/n" + std::to_string(n) + "/empty", [=] { grids_large_case<0>(n, n, {0, 0}, {0, 0}); }});
+  }
+  for (auto [n1, n2, wa, wb] : std::vector<std::tuple<size_t, size_t, std::pair<size_t, size_t>, std::pair<size_t, size_t>>>{
+           {8, 10, {0, 8}, {5, 10}}, {8, 10, {0, 8}, {7, 9}}, {10, 8, {7, 9}, {0, 8}}, {10, 8, {8, 10}, {0, 3}}, {9, 12, {0, 2}, {10, 12}}, {16, 17, {0, 16}, {0, 17}}})
+    cases.push_back({"grids-large/o1/n" + std::to_string(n1) + "," + std::to_string(n2) + "/wa" + W(wa) + "/wb" + W(wb), [=] { grids_large_case<1>(n1, n2, wa, wb); }});
+#endif
   add<1, 1>(cases);
   add<2, 0>(cases);
 #ifdef MORE_ORDERS
